@@ -44,6 +44,7 @@ def queries(tier):
     RESP_ALPHA = ["A(0)", "A(1)", "Q(0,0)", "Q(0,1)", "G(0,1)", "QB(0,0)", "R(%d,0)", "R(%d,1)", "S(%d,0)", "T(0,1)", "C(0)"]
     # the surveyor vanishes between survey and response: the response is accepted and discarded, and it still consumes the survey
     RESP_CUR += ["A(0) Q(0,0) R(0,0) C(0) S(1,1) S(2,1) Z", "A(0) A(1) Q(0,0) R(0,0) C(0) S(1,1) S(2,1) Z", "A(0) Q(0,0) R(0,0) C(0) S(1,1) A(0) S(2,1) Z"]
+    RESP_CUR += ["A(0) QB(0,2) R(0,0) Z", "A(0) Q(0,7) QB(0,2) R(0,0) S(1,1) Z", "A(0) R(0,1) QB(0,2) Q(0,0) Z"]
     rw = list(RESP_CUR) + skel.enumerate_words(RESP_ALPHA, 4 if tier == "quick" else 5, first=["A(0)"], limit=80 if tier == "quick" else 3000)
     seen = set()
     for w in rw:
